@@ -237,3 +237,7 @@ PROFILES: Dict[str, dict] = {
                   "sizes": [[1], [2], [3], [1, 3], [2, 5], [4]], "until": (4, 9)},
     "big": {"n_sims": (5, 6), "n_conns": (5, 12), "depth": 3},
 }
+
+PROFILES["tiny"] = {"n_sims": (2, 3), "until": (2, 3), "n_conns": (1, 4), "depth": 1, "p_two_entities": 0.1}
+PROFILES["tiny_flat"] = {"n_sims": (2, 3), "until": (2, 3), "n_conns": (1, 4), "depth": 0,
+                         "kinds": {"plain": 6, "shift": 4, "weak": 0}, "p_two_entities": 0.1}
